@@ -310,7 +310,8 @@ async def body(job):
         job.exc_obj = cls(job.name) if (spec.get("h", 0) + spec.get("k", 0)) % 3 else cls()
         emitj(job, "raise", job.name)
         raise job.exc_obj
-    job.ret_obj = ("result-of", job.name)
+    # (`odd`: a result that a strict utf-8 stream cannot print - what os.fsdecode gives for an undecodable file name)
+    job.ret_obj = "report-of-%s-\udcff.txt" % job.name if spec.get("odd") else ("result-of", job.name)
     emitj(job, "end", job.name)
     return job.ret_obj
 
@@ -689,7 +690,8 @@ def run(sc, linger=None, shutdown_again=True):
     asyncio.Queue = VQueue
     res = {}
     so = sys.stdout
-    sys.stdout = io.StringIO()
+    # (`strict_out`: a standard output like the interpreter's own - utf-8, errors="strict" - instead of a StringIO)
+    sys.stdout = io.TextIOWrapper(io.BytesIO(), encoding="utf-8", errors="strict") if sc.get("strict_out") else io.StringIO()
     STATE["active"] = True
     try:
         top, objs = build(sc)
@@ -747,7 +749,7 @@ def run(sc, linger=None, shutdown_again=True):
         except Hang as e:
             res["hang"] = str(e)
         res["unfinished"] = [STATE["taskinfo"].get(id(t), ("?", "?")) for t in STATE["tasks"] if not t.done()]
-        res["stdout_len"] = len(sys.stdout.getvalue())
+        res["stdout_len"] = len(sys.stdout.getvalue()) if hasattr(sys.stdout, "getvalue") else sys.stdout.buffer.tell()
         return res, list(LOG)
     finally:
         STATE["active"] = False
